@@ -273,7 +273,7 @@ int Session::on_tx_hook(int hook, htp_tx_t *tx) {
         if (m.req_complete) viol(std::string("C05:request_complete_twice@") + htp_connp_in_state_as_string(connp_));
         m.req_complete++;
         if (o_.monitors) {
-            if (tx->request_entity_len != m.reqbody) viol(std::string("C06:request_entity_len_mismatch@") + htp_connp_in_state_as_string(connp_));
+            if (tx->request_entity_len != m.reqbody && !sticky_[0] && connp_->in_status != HTP_STREAM_ERROR) viol(std::string("C06:request_entity_len_mismatch@") + htp_connp_in_state_as_string(connp_));
             if (htp_tx_req_has_body(tx) && !m.req_eob) viol(std::string("C06:request_no_end_of_body_marker@") + htp_connp_in_state_as_string(connp_));
             if (tx->request_content_encoding <= HTP_COMPRESSION_NONE && tx->request_message_len < tx->request_entity_len) viol(std::string("C06:request_message_len_below_entity_len@") + htp_connp_in_state_as_string(connp_));
         }
@@ -281,7 +281,7 @@ int Session::on_tx_hook(int hook, htp_tx_t *tx) {
         if (m.res_complete) viol(std::string("C05:response_complete_twice@") + htp_connp_out_state_as_string(connp_));
         m.res_complete++;
         if (o_.monitors) {
-            if (tx->response_entity_len != m.resbody) viol(std::string("C06:response_entity_len_mismatch@") + htp_connp_out_state_as_string(connp_));
+            if (tx->response_entity_len != m.resbody && !sticky_[1] && connp_->out_status != HTP_STREAM_ERROR) viol(std::string("C06:response_entity_len_mismatch@") + htp_connp_out_state_as_string(connp_));
             if ((tx->response_transfer_coding == HTP_CODING_IDENTITY || tx->response_transfer_coding == HTP_CODING_CHUNKED) && !m.res_eob) viol(std::string("C06:response_no_end_of_body_marker@") + htp_connp_out_state_as_string(connp_));
             if (tx->response_content_encoding_processing <= HTP_COMPRESSION_NONE && tx->response_message_len < tx->response_entity_len) viol(std::string("C06:response_message_len_below_entity_len@") + htp_connp_out_state_as_string(connp_));
         }
@@ -295,8 +295,8 @@ int Session::on_tx_hook(int hook, htp_tx_t *tx) {
         if (o_.dump) { TxDump &d = slot(serial); d.complete = true; dump_tx(tx, d); }
         else slot(serial).complete = true;
     }
-    if (hook == H_REQ_HEADERS && p_.tx_req_hook) htp_tx_register_request_body_data(tx, cb_txreq_body);
-    if (hook == H_RES_HEADERS && p_.tx_res_hook) htp_tx_register_response_body_data(tx, cb_txres_body);
+    if (hook == H_REQ_HEADERS && p_.tx_req_hook && !m.txreq_hook) { htp_tx_register_request_body_data(tx, cb_txreq_body); m.txreq_hook = true; }
+    if (hook == H_RES_HEADERS && p_.tx_res_hook && !m.txres_hook) { htp_tx_register_response_body_data(tx, cb_txres_body); m.txres_hook = true; }
     int rc = plan_rc(hook);
     record(hook, tx, nullptr, 0, false, 0, rc);
     return rc;
@@ -313,10 +313,13 @@ int Session::on_data_hook(int hook, htp_tx_data_t *d) {
     if (hook == H_REQ_BODY || hook == H_RES_BODY) {
         if (!marker) monitor_tx_hook(hook, tx, m);
         else if (o_.monitors && m.tx_complete) viol(std::string("C05:callback_after_transaction_complete:") + hook_name(hook) + "(marker)@" + htp_connp_in_state_as_string(connp_) + "/" + htp_connp_out_state_as_string(connp_));
-        if (hook == H_REQ_BODY) { if (marker) m.req_eob++; else { m.reqbody += d->len; if (m.req_complete) viol(std::string("C05:request_body_data_after_request_complete@") + htp_connp_in_state_as_string(connp_) + tsuffix(m, 1u << 5)); } }
-        else { if (marker) m.res_eob++; else { m.resbody += d->len; if (m.res_complete) viol(std::string("C05:response_body_data_after_response_complete@") + htp_connp_out_state_as_string(connp_) + tsuffix(m, 1u << 7)); } }
+        if (hook == H_REQ_BODY) { if (marker) m.req_eob++; else { if (!m.txreq_hook) m.reqbody += d->len; if (m.req_complete) viol(std::string("C05:request_body_data_after_request_complete@") + htp_connp_in_state_as_string(connp_) + tsuffix(m, 1u << 5)); } }
+        else { if (marker) m.res_eob++; else { if (!m.txres_hook) m.resbody += d->len; if (m.res_complete) viol(std::string("C05:response_body_data_after_response_complete@") + htp_connp_out_state_as_string(connp_) + tsuffix(m, 1u << 7)); } }
         if (o_.keep_body && d->data) { TxDump &t = slot(serial); std::string &b = hook == H_REQ_BODY ? t.req_body : t.res_body; if (b.size() < o_.max_body) b.append((const char *)d->data, std::min(d->len, o_.max_body - b.size())); }
     } else {
+        // bytes are counted at the first hook of the chain (a non-OK return from it stops the chain)
+        if (!marker && hook == H_TXREQ_BODY && m.txreq_hook) m.reqbody += d->len;
+        if (!marker && hook == H_TXRES_BODY && m.txres_hook) m.resbody += d->len;
         // raw header/trailer data receivers and tx-level hooks: only required not to fire after TRANSACTION_COMPLETE
         if (o_.monitors && m.tx_complete) viol(std::string("C05:callback_after_transaction_complete:") + hook_name(hook) + "@" + htp_connp_in_state_as_string(connp_) + "/" + htp_connp_out_state_as_string(connp_));
     }
@@ -504,8 +507,8 @@ Result &Session::finish() {
             if (o_.dump) dump_tx(tx, d);
             if (o_.monitors) {
                 TxM &m = mon_[serial];
-                if (tx->request_entity_len != m.reqbody) viol("C06:request_entity_len_mismatch@end");
-                if (tx->response_entity_len != m.resbody) viol("C06:response_entity_len_mismatch@end");
+                if (tx->request_entity_len != m.reqbody && !sticky_[0]) viol("C06:request_entity_len_mismatch@end");
+                if (tx->response_entity_len != m.resbody && !sticky_[1]) viol("C06:response_entity_len_mismatch@end");
             }
         }
         htp_connp_destroy_all(connp_);
